@@ -302,15 +302,18 @@ Example C15_hypotheses_nonvacuous :
   Qcmult (qc_nrm w_v) (qc_nrm w_v) = sumsq QcOps w_v /\ qc_nrm w_v <> Q2Qc 0 /\
   qc_is0 (qc_nrm w_v) = false /\ qc_close0 (qc_nrm w_v) = false.
 Proof. exact w_hyps. Qed.
+Print Assumptions C15_hypotheses_nonvacuous.
 
 Example C15_set_nonvacuous :
   qclist_eqb (set_cell (K:=QcOps) qc_is0 (qc_nrm w_v) (qc 10) w_v) (qcl [6; 8; 0]%Q) = true.
 Proof. exact w_set. Qed.
+Print Assumptions C15_set_nonvacuous.
 
 Example C15_threshold_nonvacuous :
   qclist_eqb (unit_cell (K:=QcOps) qc_close0 (qc_nrm w_tiny) w_tiny) (qcl [0; 0]%Q) = true /\
   qclist_eqb (set_cell (K:=QcOps) qc_is0 (qc_nrm w_tiny) (qc 5) w_tiny) (qcl [3; 4]%Q) = true.
 Proof. exact w_tiny_orient. Qed.
+Print Assumptions C15_threshold_nonvacuous.
 
 Example C15_history_nonvacuous :
   match run_ops (K:=QcOps) qc_nrm qc_is0 qc_close0
@@ -320,11 +323,14 @@ Example C15_history_nonvacuous :
   | Err _ => false
   end = true.
 Proof. exact w_history. Qed.
+Print Assumptions C15_history_nonvacuous.
 
 Example C15_threshold_is_binary64_1e_8 :
   Qle_bool (Qabs (orient_atol - (1 # 100000000))) (1 # 1000000000000000000000000) = true
   /\ Qden orient_atol = (2 ^ 78)%positive.
 Proof. exact w_atol. Qed.
+Print Assumptions C15_threshold_is_binary64_1e_8.
 
 Example C15_qsqrt_partial_nonvacuous : (qsqrt 2 = None /\ qsqrt (9 # 4) = Some (3 # 2))%Q.
 Proof. exact w_qsqrt_partial. Qed.
+Print Assumptions C15_qsqrt_partial_nonvacuous.
